@@ -18,6 +18,7 @@
 
 #include <QDomElement>
 #include <QHostAddress>
+#include <QPointer>
 #include <QSslKey>
 #include <QSslSocket>
 #include <QTimer>
@@ -70,12 +71,14 @@ void QXmppIncomingClientPrivate::checkCredentials(const QByteArray &response)
         QXmppPasswordReply *reply = passwordChecker->checkPassword(request);
         reply->setParent(q);
         reply->setProperty("__sasl_raw", response);
+        reply->setProperty("__sasl_server", QVariant::fromValue(QPointer<QObject>(saslServer.get())));
         QObject::connect(reply, &QXmppPasswordReply::finished,
                          q, &QXmppIncomingClient::onPasswordReply);
     } else if (saslServer->mechanism() == u"DIGEST-MD5") {
         QXmppPasswordReply *reply = passwordChecker->getDigest(request);
         reply->setParent(q);
         reply->setProperty("__sasl_raw", response);
+        reply->setProperty("__sasl_server", QVariant::fromValue(QPointer<QObject>(saslServer.get())));
         QObject::connect(reply, &QXmppPasswordReply::finished,
                          q, &QXmppIncomingClient::onDigestReply);
     }
@@ -473,6 +476,11 @@ void QXmppIncomingClient::onDigestReply()
     }
     reply->deleteLater();
 
+    // ignore replies that belong to an exchange which has been replaced or aborted in the meantime
+    if (!d->saslServer || reply->property("__sasl_server").value<QPointer<QObject>>() != d->saslServer.get()) {
+        return;
+    }
+
     if (reply->error() == QXmppPasswordReply::TemporaryError) {
         warning(u"Temporary authentication failure for '%1' from %2"_s.arg(d->saslServer->username(), d->origin()));
         Q_EMIT updateCounter(u"incoming-client.auth.temporary-auth-failure"_s);
@@ -518,6 +526,11 @@ void QXmppIncomingClient::onPasswordReply()
         return;
     }
     reply->deleteLater();
+
+    // ignore replies that belong to an exchange which has been replaced or aborted in the meantime
+    if (!d->saslServer || reply->property("__sasl_server").value<QPointer<QObject>>() != d->saslServer.get()) {
+        return;
+    }
 
     const QString jid = u"%1@%2"_s.arg(d->saslServer->username(), d->domain);
     switch (reply->error()) {
